@@ -1324,7 +1324,7 @@ CORPUS = [
     [('seq', [('i', 1)]), ('mctor', [(('i', 0), 0), (('f', '-0.0'), 0)][:1]), ('mget', 1, ('a', '')), ('mentry', ('a', ''), 0),
      ('mget', 3, ('i', 0)), ('mget', 3, ('s', '')), ('mcontains', 3, ('d', '0')), ('mput', 3, ('i', 0), 0), ('mkeys', 7),
      ('seq', [3, 1]), ('mmerge', 9, 'combine'), ('mget', 10, ('u', ''))],
-    # xs:untypedAtomic keys: string class; the constructor stores them as xs:string, map:entry/put keep them
+    # xs:untypedAtomic keys: string class; constructor, map:entry and map:put all keep the untypedAtomic value
     [('seq', [('i', 1)]), ('mctor', [(('a', '1'), 0), (('i', 1), 0)]), ('mkeys', 1), ('mentry', ('a', 'a'), 0), ('mkeys', 3),
      ('mget', 3, ('s', 'a')), ('mcontains', 3, ('u', 'a')), ('mput', 3, ('u', 'a'), 0), ('mkeys', 7), ('mget', 1, ('a', '1')),
      ('mctor', [(('a', 'x'), 0), (('s', 'x'), 0)]), ('seq', [('a', '1')]), ('seq', [('s', '1')]), ('deq', 11, 12), ('seq', [('i', 1)]),
